@@ -1297,13 +1297,16 @@ fn main() {
     }
 
     // ---- the enumerated family "generalisation under a binder" (c02/genbind.rs): all members in
-    // the thorough tier, every `stride`-th (rotating with the seed) in the quick tier
+    // the thorough tier, one in `stride` (chosen by a hash of index and seed) in the quick tier
     let fam = genbind::family();
-    let stride = if thorough { 1 } else { std::env::var("C02_GENBIND_STRIDE").ok().and_then(|x| x.parse().ok()).unwrap_or(3usize) };
+    let stride = if thorough { 1 } else { std::env::var("C02_GENBIND_STRIDE").ok().and_then(|x| x.parse().ok()).unwrap_or(9usize) };
     out.add("plan:genbind-family-size", fam.len() as u64);
     out.add("plan:genbind-stride", stride as u64);
     for (i, m) in fam.into_iter().enumerate() {
-        if (i + args.seed as usize) % stride != 0 {
+        // pseudo-random selection (not a regular stride: the enumeration order is a product of
+        // small loops, a regular stride would always skip the same combinations)
+        let h = (i as u64 ^ args.seed.wrapping_mul(0x9E3779B97F4A7C15)).wrapping_mul(0xD1B54A32D192ED03);
+        if (h >> 33) % stride as u64 != 0 {
             continue;
         }
         let src = surf::program_text(&m.expr);
